@@ -103,7 +103,8 @@ def check_call(cfg, call):
         else:
             want_type = "TimeoutError" if last.label == "timeout" else "OpError"
             if tname != want_type and not (want_type == "OpError"
-                                           and tname in ("FalsyOpError", "OpRuntimeError")):
+                                           and tname in ("FalsyOpError", "OpRuntimeError",
+                                                         "FrozenOpError")):
                 v.append(("c04.exception-type", f"raised type {tname}, original {want_type}"))
             raised_n = sum(1 for o in call.ops if o.obj == last.obj)
             if tb is None or not tb[0] or tb[1] != raised_n:
